@@ -165,6 +165,12 @@ def worker(args):
             if not base:
                 continue
             hmc = rnd.choice([0, 0, 0, rnd.randint(1, 60), rnd.randint(60, 99), rnd.randint(90, 99)])
+            val0 = dtm.ask(base + " 0 1")
+            if val0 and val0[0] != "draw" and rnd.random() < .45:
+                # clocks right at the 50-move margin of this root: the mate needs p plies, 100-hmc are left
+                p_need = 2 * val0[1] - 1 if val0[0] == "win" else 2 * val0[1]
+                hmc = min(99, max(0, 100 - p_need + rnd.choice([-2, -1, 0, 0, 1, 1, 2])))
+                res["boundary"] = res.get("boundary", 0) + 1
             fen = "%s %d %d" % (base, hmc, 60)
             send("position fen " + fen)
             if len(cls) == 4 and rnd.random() < .3:
@@ -225,12 +231,13 @@ def run(c):
         cl = three if i % 2 == 0 else four
         jobs.append((c.seed * 10000 + i, cl, all_classes, per))
     zones, tot, incon = {}, 0, 0
+    boundary = 0
     fens = set()
     with concurrent.futures.ThreadPoolExecutor(max_workers=core.NCPU) as ex:
         for r in ex.map(worker, jobs):
             for kind, wit in r["viol"]:
                 c.violation("tb-exact-results", kind, wit)
-            tot += r["n"]; incon += r["incon"]
+            tot += r["n"]; incon += r["incon"]; boundary += r.get("boundary", 0)
             fens |= r["fens"]
             for k, v in r["zones"].items():
                 zones[k] = zones.get(k, 0) + v
@@ -239,11 +246,11 @@ def run(c):
     c.evaluations = tot
     c.distinct = len(fens)
     c.rule = ("one case = one 'go infinite' + stop on a random legal placement of a pawnless <=4-men class (3-men classes and 4-men classes from the verified dumps) with "
-              "half-move clock in {0, 1..60, 60..99, 90..99}, Hash in {8,16,64}, Threads 1..4, several roots per process (table reuse/replacement), 30% of 4-men roots "
+              "half-move clock in {0, 1..60, 60..99, 90..99} and, for 45% of the decisive roots, within +-2 of the clock at which the table's mate just fits before the 50-move limit, Hash in {8,16,64}, Threads 1..4, several roots per process (table reuse/replacement), 30% of 4-men roots "
               "preceded by a search stopped during table generation; judged: exact 'mate N' inside the 50-move margin, cp score on drawn roots, successor of bestmove keeps "
               "the value (shortest win / longest defence / no draw->loss), no mate score beyond the 50-move limit (3-men classes; 4-men: only N >= DTM). "
               "distinct_nontrivial = distinct root FENs that produced tablebase output")
-    c.extra.update(zones=zones, searches_without_tb_output=incon, oracle_classes=all_classes, oracle_positions_verified=st.get("positions_checked", 0), exhaustive=False)
+    c.extra.update(roots_at_the_50_move_margin=boundary, zones=zones, searches_without_tb_output=incon, oracle_classes=all_classes, oracle_positions_verified=st.get("positions_checked", 0), exhaustive=False)
     c.extra["inconclusive_allowed"] = 10 ** 9
     c.assumptions += ["DTM oracle = dumps that passed the exhaustive Bellman check in this run (h_tb sweep)", "4-men roots beyond the 50-move margin are not judged for exactness"]
     if zones.get("exact", 0) == 0:
